@@ -84,6 +84,21 @@ def seqPrint (sep : Option Bytes) (term : Bytes) (st : Seq) (blk : Bytes) : Seq 
 def outSeq (sep : Option Bytes) (term : Bytes) (blks : List Bytes) : Bytes :=
   (blks.foldl (seqPrint sep term) {}).out
 
+/-! ### a search that fails part-way (`main.rs`: the `Err(err)` arms of `search` / `search_parallel`)
+
+`blk` = what the printer had written for the file when the search returned (`failed = true`: an error after
+some results, e.g. a `--pre` / `-z` command that exits unsuccessfully once its output was consumed, or a
+read error in the middle of a file).  Single-threaded, those bytes are already on stdout when the error
+comes back.  Multi-threaded, they sit in the worker's buffer; since 1ed0364 the `Err` arm prints the buffer
+(`bufwtr.print`) before `err_message!`, as the `Ok` arm does (before, it returned without printing and the
+results were lost). -/
+
+def outSeqF (sep : Option Bytes) (term : Bytes) (items : List (Bytes × Bool)) : Bytes :=
+  outSeq sep term (items.map (·.1))
+
+def outParF (sep : Option Bytes) (items : List (Bytes × Bool)) : Bytes :=
+  outPar sep (items.map (·.1))
+
 /-! ### `--files` with several threads: channel + one printing thread -/
 
 /-- `files_parallel`: the print thread writes each received path line; no separator. -/
